@@ -27,6 +27,7 @@ from typing import Any, Callable, Dict, List, Optional, Sequence, Tuple
 import asyncssh
 from asyncssh.constants import (MSG_CHANNEL_DATA, MSG_CHANNEL_EXTENDED_DATA, MSG_CHANNEL_EOF, MSG_CHANNEL_CLOSE,
                                 MSG_CHANNEL_REQUEST, MSG_CHANNEL_WINDOW_ADJUST)
+from asyncssh.constants import EXTENDED_DATA_STDERR
 from asyncssh import packet as packetmod
 from asyncssh.packet import Boolean, String, UInt32
 from asyncssh.stream import SSHReader, SSHWriter, SSHServerStreamSession
@@ -39,6 +40,8 @@ from vlib import hx, unhx
 # script tokens (shared syntax with lean/Drivers/C19.lean)
 #   ('G', [arrival, ...])   arrival = ('d', bytes) | ('f', bytes) | ('e',) | ('x', code)
 #   ('R', n) ('X', n) ('U', [seps]) ('V', sep) ('P', maxlen, [seps]) ('L',) ('Q',)
+#   ('O', n)   n bytes arrive for the OTHER stream of the same session (stderr while stdout is the reader under test)
+#   ('T', n)   the application reads n (buffered) bytes of the other stream
 
 
 def tok_str(t: Tuple) -> str:
@@ -53,7 +56,7 @@ def tok_str(t: Tuple) -> str:
             else:
                 parts.append('x%d' % a[1])
         return 'G:' + ','.join(parts)
-    if k in 'RX':
+    if k in 'RXOT':
         return '%s%d' % (k, t[1])
     if k == 'U':
         return 'U' + ','.join(hx(s) for s in t[1])
@@ -79,7 +82,7 @@ def parse_tok(s: str) -> Tuple:
             else:
                 arr.append(('x', int(a[1:])))
         return ('G', arr)
-    if s[0] in 'RX':
+    if s[0] in 'RXOT':
         return (s[0], int(s[1:]))
     if s[0] == 'U':
         return ('U', [unhx(x) for x in s[1:].split(',') if x])
@@ -117,8 +120,9 @@ class StandInChannel:
     """Minimal channel for a directly driven session: queues data while reading is paused and hands it over on
     resume, the way SSHChannel._accept_data/_flush_recv_buf do (the real channel is exercised in wire mode)."""
 
-    def __init__(self, loop: Any, limit: int, encoding: Optional[str]):
+    def __init__(self, loop: Any, limit: int, encoding: Optional[str], two_streams: bool = False):
         self.loop, self.limit, self.encoding = loop, limit, encoding
+        self.two_streams = two_streams
         self.paused = False
         self.queue: List[Any] = []
         self.eof_pending = False
@@ -138,7 +142,7 @@ class StandInChannel:
         return self.limit
 
     def get_read_datatypes(self) -> Any:
-        return set()
+        return {EXTENDED_DATA_STDERR} if self.two_streams else set()
 
     def get_write_datatypes(self) -> Any:
         return set()
@@ -245,14 +249,24 @@ class Feeder:
 
 
 class DirectFeeder(Feeder):
-    def __init__(self, limit: int, text: bool):
+    def __init__(self, limit: int, text: bool, two_streams: bool = False):
         loop = asyncio.get_event_loop()
         self.text = text
-        self.chan = StandInChannel(loop, limit, 'latin-1' if text else None)
+        self.chan = StandInChannel(loop, limit, 'latin-1' if text else None, two_streams)
         self.session = SSHServerStreamSession(None)
         self.chan.session = self.session
         self.session.connection_made(self.chan)     # type: ignore
         self.reader = SSHReader(self.session, self.chan)    # type: ignore
+        # the other stream of the same session (what stderr is to a client process's stdout)
+        self.other = SSHReader(self.session, self.chan, EXTENDED_DATA_STDERR) if two_streams else None   # type: ignore
+
+    def other_arrives(self, n: int) -> None:
+        assert self.other is not None
+        self.other.feed_data(self.conv(b'E' * n))
+
+    async def other_read(self, n: int) -> None:
+        assert self.other is not None
+        await asyncio.wait_for(self.other.readexactly(n), 5)
 
     async def apply(self, group: List[Tuple]) -> List[Tuple]:
         for a in group:
@@ -386,6 +400,14 @@ async def run_script(feeder: Feeder, toks: Sequence[Tuple],
         real.append(t)
         if t[0] == 'Q':
             out.append('eof=%d' % (1 if r.at_eof() else 0))
+            continue
+        if t[0] == 'O':
+            feeder.other_arrives(t[1])      # type: ignore
+            await feeder.settle()
+            continue
+        if t[0] == 'T':
+            await feeder.other_read(t[1])   # type: ignore
+            await feeder.settle()
             continue
         if t[0] == 'R':
             coro = r.read(t[1])
@@ -600,7 +622,7 @@ def pev_str(ev: Tuple) -> str:
         return '%s%d' % (k, ev[1])
     if k in 'sS':
         return '%s%d' % (k, ev[1])
-    if k in 'xr':
+    if k in 'xrq':
         return '%s%d' % (k, ev[1])
     return k
 
@@ -608,7 +630,7 @@ def pev_str(ev: Tuple) -> str:
 def parse_pev(x: str) -> Tuple:
     if x[0] in 'dD':
         return (x[0], unhx(x[1:]))
-    if x[0] in 'sSxrvV':
+    if x[0] in 'sSxrqvV':
         return (x[0], int(x[1:]))
     return (x,)
 
@@ -632,7 +654,20 @@ async def run_proc_events(limit: int, evs: Sequence[Tuple], chunker: Any = None)
     packet fills the window to the last byte, which is conforming: it is realized as an ordinary d/D event."""
     got: List[Any] = []
 
+    sink2: Dict[str, Any] = {'data': b'', 'eof': False}
+
     async def handler(process: Any) -> None:
+        if process.command == 'sink':       # the target of a `q` event: another process, its stdin is the target
+            try:
+                while True:
+                    d = await process.stdin.read(65536)
+                    if not d:
+                        break
+                    sink2['data'] += d
+                sink2['eof'] = True
+            except Exception:       # noqa: BLE001
+                pass
+            await asyncio.sleep(3600)
         got.append(process)
         await asyncio.sleep(3600)
     lost: List[Any] = []
@@ -655,6 +690,7 @@ async def run_proc_events(limit: int, evs: Sequence[Tuple], chunker: Any = None)
         closed_once = False
         wait_task: Optional[asyncio.Task] = None
         sink: Optional[Sink] = None
+        p2: Any = None
         pending: List[Tuple] = []
         realized: List[Tuple] = []
         hostile: List[int] = []
@@ -727,7 +763,7 @@ async def run_proc_events(limit: int, evs: Sequence[Tuple], chunker: Any = None)
 
         for ev in evs:
             k = ev[0]
-            if k in 'xwr' and inflight:
+            if k in 'xwrq' and inflight:
                 # something went out since the last loop turn (typically what the peer had held back, sent after the
                 # script's own `t`): let it arrive before the application acts / the peer disconnects.  An event of
                 # the model is an arrival; bytes still in flight when the link is cut are not a scenario here.
@@ -758,7 +794,7 @@ async def run_proc_events(limit: int, evs: Sequence[Tuple], chunker: Any = None)
                 realized.append(ev)
                 await pair.settle(6)
             elif k == 'r':
-                if sink is None:
+                if sink is None and p2 is None:
                     sink = Sink()
                     try:
                         await p.redirect_stdout(sink, recv_eof=bool(ev[1]))
@@ -766,6 +802,18 @@ async def run_proc_events(limit: int, evs: Sequence[Tuple], chunker: Any = None)
                         res['redirect'] = 'raised:' + type(e).__name__
                 realized.append(ev)
                 await pair.settle(6)
+            elif k == 'q':
+                # redirect into another process's stdin: an SSHWriter target, which (unlike a file object) does not
+                # look at recv_eof itself
+                if sink is None and p2 is None:
+                    p2 = await c.create_process('sink', encoding=None)
+                    await pair.settle(8)
+                    try:
+                        await p.redirect_stdout(p2.stdin, recv_eof=bool(ev[1]))
+                    except Exception as e:      # noqa: BLE001
+                        res['redirect'] = 'raised:' + type(e).__name__
+                realized.append(ev)
+                await pair.settle(14)
         # the peer goes on sending what it holds as the window re-opens; nobody acts on the client side any more
         for _ in range(200):
             if realized and realized[-1] != ('t',):
@@ -790,8 +838,14 @@ async def run_proc_events(limit: int, evs: Sequence[Tuple], chunker: Any = None)
             res['wait'] = None
             if wait_task is not None:
                 wait_task.cancel()
-        res['target'] = sink.content() if sink is not None else b''
-        res['target_closed'] = bool(sink is not None and sink.closed)
+        if p2 is not None:
+            await pair.settle(20)
+            res['target'] = bytes(sink2['data'])
+            res['target_closed'] = bool(sink2['eof'])
+            res['target_kind'] = 'process'
+        else:
+            res['target'] = sink.content() if sink is not None else b''
+            res['target_closed'] = bool(sink is not None and sink.closed)
         res['events'] = realized
         res['unsent'] = list(pending)
         res['hostile'] = hostile
